@@ -1,6 +1,8 @@
 import Gv.Proofs.BagRect3
 import Gv.Proofs.BagExt
-/-! No operation changes the kind (alignment / plain sequence set) of a container (C01). -/
+import Gv.Proofs.BagExt2
+/-! No operation other than `Unalign` changes the kind (alignment / plain sequence set) of a container, and
+`Unalign` only turns an alignment into a plain sequence set (C01). -/
 namespace Gv.Proofs.BagAbs
 open Gv Gv.Model Gv.Proofs.BagInv
 
@@ -59,8 +61,11 @@ theorem isAlign_concat (other : List (String × Seq)) (clen : Int) (ca : Nat) (b
     have hs2 := (isAlign_concatLoop2 b.length.toNat other _).trans hs1
     exact ite_fst (P := fun x => x.isAlign = b.isAlign) hs2 hs2
 
-theorem isAlign_stepOp (b : Bag) (op : Op) : (stepOp b op).1.isAlign = b.isAlign := by
+theorem isAlign_stepOp (b : Bag) (op : Op) (hne : op ≠ .unalign) : (stepOp b op).1.isAlign = b.isAlign := by
   cases op with
+  | unalign => exact absurd rfl hne
+  | renameRe ok names => simp only [stepOp]; split <;> rfl
+  | setAlpha a => exact (setAlphabet_fields a b).2.2.2.1
   | add n s => exact isAlign_addSeqAs _ b n s
   | ignore p => rfl
   | clear => rfl
@@ -198,5 +203,22 @@ theorem isAlign_stepOp (b : Bag) (op : Op) : (stepOp b op).1.isAlign = b.isAlign
         · rfl
         · rename_i r hr
           exact (compressBag_fields hr).2.2.2.1
+
+/-- `Unalign` yields a plain sequence set (or, on an alphabet for which none exists, leaves the object alone) -/
+theorem isAlign_stepOp_unalign (b : Bag) :
+    (stepOp b .unalign).1.isAlign = false ∨ (stepOp b .unalign).1 = b := by
+  simp only [stepOp]
+  split
+  · exact Or.inr rfl
+  · exact Or.inl (isAlign_unalign b)
+
+/-- no operation turns a plain sequence set into an alignment -/
+theorem isAlign_of_stepOp (b : Bag) (op : Op) (h : (stepOp b op).1.isAlign = true) : b.isAlign = true := by
+  by_cases hne : op = .unalign
+  · subst hne
+    rcases isAlign_stepOp_unalign b with e | e
+    · rw [e] at h; cases h
+    · rw [e] at h; exact h
+  · rw [isAlign_stepOp b op hne] at h; exact h
 
 end Gv.Proofs.BagAbs
